@@ -55,6 +55,65 @@ def fold(expr, consts, depth=0):
     return None
 
 
+def range_bounds(b, byid):
+    """(lo, hi) of the RangeInclusive the body tests its argument against, from rustc-evaluated constants; None if not found."""
+    cont = [c for c in b['calls'] if re.search(r'RangeInclusive::<[^>]*>::contains', c['callee'])]
+    if len(cont) != 1:
+        return None
+    defs = {}
+    for blk in b['blocks']:
+        for st in blk['stmts']:
+            m = re.match(r'^(_\d+) = (.*)$', st)
+            if m:
+                defs.setdefault(m.group(1), m.group(2))
+    for c in b['calls']:
+        d = str(c.get('dest') or '').split(' ')[0]
+        if d.startswith('_'):
+            defs.setdefault(d, ('call', c))
+
+    def consts_of(body):
+        return {x['text']: int(x['val']) for x in body.get('consts', [])}
+
+    def value_of(opnd, body, depth=0):
+        """integer value of an operand text (`const X`, `move _n`, `copy (_n.0: u64)`)"""
+        opnd = opnd.strip()
+        cv = consts_of(body)
+        if opnd in cv:
+            return cv[opnd]
+        m = re.match(r'^(?:move |copy )?\(?(_\d+)(?:\.0: [^)]*\))?$', opnd)
+        if m and depth < 10:
+            rhs = defs.get(m.group(1)) if body is b else None
+            if isinstance(rhs, str):
+                return value_of(rhs, body, depth + 1)
+        return None
+
+    def range_of(opnd, depth=0):
+        opnd = opnd.strip()
+        m = re.search(r'promoted\[(\d+)\]', opnd)
+        if m:
+            pb = byid.get(f"{b['id']}::promoted[{m.group(1)}]")
+            if pb:
+                nw = [c for c in pb['calls'] if re.search(r'RangeInclusive::<[^>]*>::new$', c['callee'])]
+                if len(nw) == 1 and len(nw[0]['args']) == 2:
+                    cv = consts_of(pb)
+                    lo, hi = (cv.get(a.strip()) for a in nw[0]['args'])
+                    return (lo, hi) if lo is not None and hi is not None else None
+            return None
+        m = re.match(r'^(?:move |copy |&|&mut |\(\*|\*)*(_\d+)\)?$', opnd)
+        if m and depth < 12:
+            rhs = defs.get(m.group(1))
+            if isinstance(rhs, tuple):
+                c = rhs[1]
+                if re.search(r'RangeInclusive::<[^>]*>::new$', c['callee']) and len(c['args']) == 2:
+                    lo, hi = (value_of(a, b) for a in c['args'])
+                    return (lo, hi) if lo is not None and hi is not None else None
+                return None
+            if isinstance(rhs, str):
+                return range_of(rhs, depth + 1)
+        return None
+    return range_of(cont[0]['args'][0])
+
+
 def run(ctx, rep):
     rep.explanation = ('Range enforcement decided structurally: const-folded limits against an independently computed 2^53-1; macro wiring of the two invocations; '
                        'construction typestate over the resolved MIR of the lib crate (who may build U53/I54 and on which branch); both-bounds test before narrowing casts; '
@@ -87,7 +146,20 @@ def run(ctx, rep):
     if not mdef:
         raise core.Incomplete('macro_rules! truncated_type not found')
     body = re.sub(r'\s+', '', mdef[0]['tokens'])
-    rep.check('if!($min..=$max).contains(&value){returnErr(' in body, 'J2', 'macro:inclusive-range-test', 'if !($min..=$max).contains(&value) { return Err(..) }', 'truncated_type!: the TryFrom range test is no longer `!($min..=$max).contains(&value)` returning Err (exclusive range / different bounds / inverted test)', {'file': mdef[0]['file'], 'line': mdef[0]['line']})
+    # the range test, read from the compiled code of every instantiation (values evaluated by rustc): TryFrom<wide> tests
+    # the value with RangeInclusive::contains on a range whose two bounds are exactly the expected limits — however the
+    # range is spelled in the macro (`($min..=$max)`, `Self::MIN.0..=Self::MAX.0`, named constants …).  That the newtype is
+    # only built on the true branch of that test is J3.
+    libc = ctx.mirq('all')['crates']['typeshare']
+    byid = {b['id']: b for b in libc['bodies']}
+    for tname, (wide, _s, mn, mx) in expect.items():
+        tb = [b for b in libc['bodies'] if b['kind'] == 'assoc_fn' and re.search(rf'<integer::{tname} as std::convert::TryFrom<{wide}>>::try_from$', b['id'])]
+        key = f'{tname}:inclusive-range-test'
+        if len(tb) != 1:
+            rep.fail('J2', key, f'TryFrom<{wide}> for {tname} not found in the compiled lib crate', site)
+            continue
+        got = range_bounds(tb[0], byid)
+        rep.check(got == (mn, mx), 'J2', key, f'value tested against the inclusive range [{mn}, {mx}] (bounds evaluated by rustc)', f"TryFrom<{wide}> for {tname}: the range test covers {got if got else 'no recognisable inclusive range'} instead of [{mn}, {mx}] (exclusive range / different bounds / no RangeInclusive::contains test)", {'file': tb[0]['file'], 'line': tb[0]['line']})
     rep.check('#[serde(try_from=$untruncated_str)]' in body and 'Deserialize' in body, 'J2', 'macro:serde-try_from', 'Deserialize derived with serde(try_from)', 'truncated_type!: Deserialize is no longer routed through serde(try_from = ..)', {'file': mdef[0]['file'], 'line': mdef[0]['line']})
     for bad in ('transparent', 'serde(from', 'remote', 'DerefMut', 'AsMut', '&mutself'):
         rep.check(bad not in body, 'J2', f'macro:no-{bad}', 'absent', f'truncated_type! now contains `{bad}`: a route around the range test', {'file': mdef[0]['file'], 'line': mdef[0]['line']})
@@ -124,6 +196,18 @@ def run(ctx, rep):
                             ok = prog.dominates(b, in_range, a['bb']) and a['bb'] not in prog.reachable_blocks(b, int(sm.group(2)))
                     # payload is the tested argument
                     blkst = ' '.join(b['blocks'][a['bb']]['stmts'])
+                    if not ok:
+                        # selection form: the value is built eagerly but only handed on through `bool::then_some(test, value)`
+                        # (Some(value) iff the test is true — std contract); it reaches the result nowhere else
+                        from . import c08
+                        am = re.search(rf'(_\d+) = integer::{ty}\(move (_\d+)\)', blkst)
+                        if am:
+                            flow = c08.moved_set(b, am.group(1))
+                            uses = [c for c in b['calls'] if any(re.search(rf'\b(move|copy) {x}\b', a2) for a2 in c['args'] for x in flow)]
+                            tests = c08.moved_set(b, res)
+                            sel = [c for c in uses if re.search(r'bool::<impl bool>::then(_some)?$', c['callee']) and len(c['args']) == 2
+                                   and any(re.search(rf'\b(move|copy) {x}\b', c['args'][0]) for x in tests) and any(re.search(rf'\b(move|copy) {x}\b', c['args'][1]) for x in flow)]
+                            ok = len(uses) == 1 and len(sel) == 1 and '_0' not in flow
                     ok = ok and re.search(rf'integer::{ty}\(move (_\d+)\)', blkst) is not None and re.search(r'= copy _1\b', blkst) is not None
                     ok = ok and any('&_1' in st for blk in b['blocks'] for st in blk['stmts'])
                 rep.check(ok, 'J3', key, 'built only on the in-range branch of the inclusive-range test, from the tested value', f"{b['id']}: {ty} is constructed off the in-range branch of `contains` (or from a different value than the one tested)", asite)
@@ -157,6 +241,14 @@ def run(ctx, rep):
         cast = re.search(r'as \w+ \(IntToInt\)', stm) is not None
         signed = m.group(1) == 'I54'
         ok = has_gt and cast and (has_lt or not signed)
+        if not cast:
+            # no `as` cast at all: the narrowing is delegated to std's checked conversion of the wrapped integer
+            wide = 'u64' if m.group(1) == 'U53' else 'i64'
+            chk = [c for c in b['calls'] if re.search(rf'convert::num::<impl std::convert::TryFrom<{wide}> for {m.group(2)}>::try_from$', c['callee'])]
+            other = re.search(r'\(IntToInt\)|transmute|as_ptr', stm)
+            if len(chk) == 1 and not other and any(re.search(r'_1\.0', st) for blk in b['blocks'] for st in blk['stmts']):
+                rep.ok('J4', f'narrow:{m.group(1)}->{m.group(2)}', f"std checked conversion <{m.group(2)} as TryFrom<{wide}>>::try_from of the wrapped value", {'file': b['file'], 'line': b['line']})
+                continue
         rep.check(ok, 'J4', f'narrow:{m.group(1)}->{m.group(2)}', 'both bounds tested before the cast', f"{b['id']}: the narrowing cast is guarded by {'an upper' if has_gt else 'no'}{' and a lower' if has_lt else ''} bound test only — " + ('values below the target minimum wrap around instead of being rejected' if not has_lt else 'values above the target maximum wrap'), {'file': b['file'], 'line': b['line']})
     rep.floor('J4', 'narrowing conversions', n4, 6)
     if ctx.tier == 'thorough':
